@@ -60,6 +60,8 @@ pub enum Profile {
     Moves,
     /// creation / insertion / data editing with markup-significant strings
     Markup,
+    /// the same, and attribute names that are namespace declarations or prefixed (C15: the serialization must stay parsable)
+    MarkupNs,
 }
 
 fn pick_kind(r: &mut Rng, pool: &Pool, kinds: &[K], doc0_bias: bool) -> Option<usize> {
@@ -84,14 +86,14 @@ pub fn gen_op(r: &mut Rng, pool: &Pool, prof: Profile) -> Op {
     let containers = [K::Element, K::Element, K::Element, K::Document, K::Attr];
     let any_child = [K::Element, K::Text, K::CData, K::Comment, K::PI, K::EntRef, K::Attr, K::Document, K::Doctype];
     let text_like = [K::Text, K::CData, K::Comment];
-    let string = |r: &mut Rng| -> String { if prof == Profile::Markup { markup_string(r) } else { r.pick_s(PLAIN_VALUES).to_string() } };
-    let name = |r: &mut Rng| -> String { if r.chance(1, 5) { r.pick_s(BAD_NAMES).to_string() } else { r.pick_s(GOOD_NAMES).to_string() } };
+    let string = |r: &mut Rng| -> String { if matches!(prof, Profile::Markup | Profile::MarkupNs) { markup_string(r) } else { r.pick_s(PLAIN_VALUES).to_string() } };
+    let name = |r: &mut Rng| -> String { if prof == Profile::MarkupNs && r.chance(1, 5) { r.pick_s(&["xmlns:p", "xmlns:q", "xmlns", "xmlns:a", "xml:lang", "xml:space"]).to_string() } else if r.chance(1, 5) { r.pick_s(BAD_NAMES).to_string() } else { r.pick_s(GOOD_NAMES).to_string() } };
     let w: [u32; 12] = match prof {
         //            append insert replace remove attrs attrnode create setvalue chardata split named docfrag
         Profile::Anything => [10, 8, 6, 8, 6, 5, 10, 4, 8, 3, 3, 0],
         Profile::Specified => [10, 8, 6, 8, 6, 6, 10, 4, 6, 3, 4, 0],
         Profile::Moves => [14, 12, 6, 10, 4, 4, 8, 1, 1, 2, 1, 0],
-        Profile::Markup => [8, 5, 2, 3, 6, 2, 12, 6, 14, 4, 1, 0],
+        Profile::Markup | Profile::MarkupNs => [8, 5, 2, 3, 6, 2, 12, 6, 14, 4, 1, 0],
     };
     loop {
         let k = r.weighted(&w);
@@ -704,7 +706,7 @@ pub fn c15(ctx: &mut Ctx) {
         if let Some((sig, detail)) = c15_eval(&h.docs[0].dom) { ctx.inconclusive("initial_document_not_faithful(see C04)"); if ctx.notes.len() < 6 { ctx.notes.push(format!("{}: {} :: {}", sig, detail, h.text)); } continue; }
         let len = history_len(ctx, &mut r);
         for _ in 0..len {
-            let op = gen_op(&mut r, &h.pool, Profile::Markup);
+            let op = gen_op(&mut r, &h.pool, if i % 2 == 0 { Profile::MarkupNs } else { Profile::Markup });
             if matches!(op, Op::SubstringData { .. } | Op::Length { .. }) { continue; }
             let desc = h.pool.describe_op(&op);
             ctx.evaluations += 1;
@@ -731,8 +733,8 @@ pub fn c15(ctx: &mut Ctx) {
 // ---------------------------------------------------------------------------------------------
 // C16: character-data operations on character offsets (Vec<char> model, lock-step)
 
-const C16_CONTENTS: &[&str] = &["", "a", "hello", "\u{e9}", "h\u{1d4b3}y", "e\u{301}x", "ab cd", "\u{1d4b3}\u{1d4b3}\u{1d4b3}"];
-const C16_ARGS: &[&str] = &["", "Z", "\u{e9}\u{1d4b3}"];
+const C16_CONTENTS: &[&str] = &["", "a", "hello", "\u{e9}", "h\u{1d4b3}y", "e\u{301}x", "ab cd", "\u{1d4b3}\u{1d4b3}\u{1d4b3}", "]]a>", "a-x-b", "\u{e9}]]"];
+const C16_ARGS: &[&str] = &["", "Z", "\u{e9}\u{1d4b3}", ">", "-"];
 const C16_PLACEMENTS: &[&str] = &["text/attached", "comment/attached", "cdata/attached", "text/in-attribute", "text/detached", "comment/detached", "cdata/detached"];
 
 fn off_class(off: usize, len: usize) -> &'static str { if off > len + 2 { "huge" } else if off > len { "past-end" } else if off == len { "at-end" } else { "inside" } }
@@ -783,6 +785,9 @@ fn c16_call(h: &mut Hist, n: usize, op: &Op, model: &mut Vec<char>, attached: bo
         (X::Err, Outcome::Ok(r)) => Some(("INDEX_SIZE-expected/ok".into(), format!("returned {:?}; data now {:?}", r, after_real))),
         (X::Either, Outcome::Err(_)) => { if after_real != before_real { Some(("error-changed-data".into(), format!("data {:?} -> {:?}", before_real, after_real))) } else { None } }
         (X::Either, Outcome::Ok(_)) => { *model = after_real.unwrap_or_default().chars().collect(); None }
+        // an edit whose result the node kind cannot hold may be refused (C15); the refusal must leave everything as it was,
+        // and every later answer (length, offsets) must still be about the unchanged data
+        (X::Unit(m), Outcome::Err(_)) if !storable(h.pool.h[n].kind, &s(&m)) => { if after_real != before_real { Some(("error-changed-data".into(), format!("data {:?} -> {:?}", before_real, after_real))) } else { None } }
         (_, Outcome::Err(e)) => Some((format!("ok-expected/{}", e.name()), format!("data {:?}", after_real))),
         (X::Num(k), Outcome::Ok(Ret::Num(g))) => if g == k { None } else { Some(("length".into(), format!("length() = {} for {:?} ({} characters)", g, s(model), k))) },
         (X::Str(w), Outcome::Ok(Ret::Str(g))) => if g == w { None } else { Some(("substring".into(), format!("returned {:?}, expected {:?}", g, w))) },
